@@ -908,14 +908,14 @@ theorem Inv.step_lookup {cf ops exts c} (h : Inv cf ops exts c) (t : Nat) {host 
     · intro k hk; rw [hpc] at hk; simp [PC.createId] at hk
   · -- lIdx
     simp only [stepLookup]
-    cases c.st.index (extractDomain host) with
+    cases hix : c.st.index (extractDomain host) with
     | none => exact h.step_registryStage t hto (by rw [hpc]; rfl)
     | some k =>
       simp only
       refine h.stepSame t _ rest hto _ ?_ ?_ _ ?_ ?_ ?_ ?_
       · exact .refl _
       · exact h.regOK
-      · exact Or.inr ⟨rfl, by simp [LInv]⟩
+      · exact Or.inr ⟨rfl, by simp only [LInv]; exact h.c6 _ _ hix⟩
       · simp [PC.createId]
       · simp [PC.claimed]
       · intro k hk; rw [hpc] at hk; simp [PC.createId] at hk
